@@ -137,9 +137,12 @@ func (g *pgen) enumSettings(c *ConvSpec) {
 		if g.r.Intn(100) < 35 {
 			m.Err = true
 		}
+		// the pattern matches the whole member name, only its prefix (the rest of the name is kept), or a substring
+		pattern := []string{fmt.Sprintf("%s(\\w+) %s$1", s.Name, t.Name), fmt.Sprintf("^%s %s", s.Name, t.Name), fmt.Sprintf("%s %s", s.Name, t.Name),
+			fmt.Sprintf("%s(\\w+) %s$1", s.Name, t.Name)}[g.r.Intn(4)]
 		switch g.r.Intn(4) {
 		case 0: // rename by pattern
-			m.Lines = append(m.Lines, fmt.Sprintf("enum:transform regex %s(\\w+) %s$1", s.Name, t.Name))
+			m.Lines = append(m.Lines, "enum:transform regex "+pattern)
 		case 1: // explicit map of every member (some to actions, one possibly to a key that does not exist)
 			for _, sc := range s.Consts {
 				target := t.Name + strings.TrimPrefix(sc.Name, s.Name)
@@ -159,7 +162,7 @@ func (g *pgen) enumSettings(c *ConvSpec) {
 				m.Lines = append(m.Lines, "enum:map Bogus "+t.Name+"A")
 			}
 		case 2: // pattern plus one override
-			m.Lines = append(m.Lines, fmt.Sprintf("enum:transform regex %s(\\w+) %s$1", s.Name, t.Name))
+			m.Lines = append(m.Lines, "enum:transform regex "+pattern)
 			if len(s.Consts) > 0 && len(t.Consts) > 0 {
 				m.Lines = append(m.Lines, fmt.Sprintf("enum:map %s %s", s.Consts[0].Name, t.Consts[len(t.Consts)-1].Name))
 			}
